@@ -354,7 +354,58 @@ def _requant_shard(cases):
     return n, bad
 
 
+POOLREG_WINDOWS = [(1, 2), (2, 1), (1, 3), (3, 1), (2, 3), (3, 2), (1, 4), (4, 1), (2, 4), (4, 2), (3, 4), (4, 3), (2, 8), (8, 2), (3, 5), (5, 3), (1, 8), (8, 1), (2, 2), (3, 3)]
+
+
+def _poolreg_shard(cases):
+    """AVERAGE_POOL_2D with VALID padding (the divisor comes from Vela, not from the hardware) and equal input/output quantisation, compiled from
+    .tflite bytes: for the pooling operation found in the emitted command stream, the OFM_SCALE pair applied to the sum of the KERNEL_HEIGHT x
+    KERNEL_WIDTH window programmed for that very operation must be round-half-up division by the window size for EVERY accumulator of the type."""
+    core.bind_repo()
+    from .. import compile as C
+    from .. import netrun, outfile
+    from ..tfl import build, nets
+
+    bad = []
+    n = 0
+    for (dt, kh, kw, acc) in cases:
+        net = nets.Net(0)
+        x = net.act([1, kh + 3, kw + 3, 8], dt, name="input", q=(0.05, 0 if dt != "uint8" else 128))
+        net.inputs.append(x)
+        net.open.append(x)
+        net.cur = x
+        y = net.act([1, 4, 4, 8], dt, q=(0.05, 0 if dt != "uint8" else 128))
+        net.op("AVERAGE_POOL_2D", [x], [y], ("Pool2DOptions", dict(Padding=nets.PAD_VALID, StrideW=1, StrideH=1, FilterWidth=kw, FilterHeight=kh, FusedActivationFunction=0)))
+        rec = C.compile_main(build.serialise(net.model()), dict(acc=acc, mem="default", opt="Performance", arena=None, alloc="HillClimb", align=16), want_sideband=False)
+        if rec["status"] != 0 or rec["out"] is None:
+            continue
+        an = outfile.analyse(rec["out"])
+        for s_ in netrun.decode_streams(an, rec, acc):
+            for op in s_.ops:
+                if op.kind != "pool" or op.sub != "AVERAGE":
+                    continue
+                k = (op.r("KERNEL_HEIGHT_M1") + 1) * (op.r("KERNEL_WIDTH_M1") + 1)
+                if k != kh * kw:
+                    continue  # rewritten to something else (judged by C01)
+                n += 1
+                m, sh = op.r("OFM_SCALE", (0, 0))
+                bits = 16 if dt == "int16" else 8
+                lo_a, hi_a = -(1 << (bits - 1)) * k, ((1 << bits) - 1) * k
+                a = np.arange(lo_a, hi_a + 1, dtype=np.int64)
+                got = (a * np.int64(m) + ((np.int64(1) << np.int64(sh - 1)) if sh > 0 else 0)) >> np.int64(sh)
+                exp = np.sign(a) * ((2 * np.abs(a) + k) // (2 * k))
+                w = np.nonzero(got != exp)[0]
+                if len(w):
+                    i = int(w[0])
+                    bad.append(((dt, kh, kw, acc), "OFM scale (%d, %d) programmed for the %dx%d VALID average pool: window sum %d -> %d, division by %d gives %d (%d of %d accumulators differ)" % (
+                        m, sh, kh, kw, int(a[i]), int(got[i]), k, int(exp[i]), len(w), len(a))))
+    return n, bad
+
+
 def replay(ctx, case):
+    if case.get("kind") == "poolreg":
+        n, bad = _poolreg_shard([tuple(case["case"])])
+        return [b[1] for b in bad]
     if case.get("kind") == "requant":
         n, bad = _requant_shard([tuple(case["case"])])
         return [b[1] for b in bad]
@@ -431,6 +482,11 @@ def run(ctx):
         ctx.count("requantise_register_cases", n)
         for case, what in bad:
             ctx.violation("requant|%s|%r>%r" % (case[0], case[1], case[2]), what, dict(kind="requant", case=list(case)))
+    pr = [(dt, kh, kw, acc) for dt in ("int8", "uint8", "int16") for (kh, kw) in (POOLREG_WINDOWS[:12] if quick else POOLREG_WINDOWS) for acc in (("ethos-u55-128",) if quick else ("ethos-u55-128", "ethos-u65-512"))]
+    for n, bad in pmap(_poolreg_shard, [pr[i:i + 3] for i in range(0, len(pr), 3)]):
+        ctx.count("pool_register_cases", n)
+        for case, what in bad:
+            ctx.violation("poolreg|%s|%dx%d" % (case[0], case[1], case[2]), what, dict(kind="poolreg", case=list(case)))
     # per-channel scale records as stored for the hardware (weight_compressor._prepare_scale_and_bias picks the derivation by operator
     # kind and data type): every (kind, data type, per-channel, converted-convolution) class through the real tensor assembly
     from . import c08
